@@ -9,8 +9,8 @@ Leaf(t, ok) == [k |-> "leaf", text |-> t, ok |-> ok]
 W(v) == [k |-> "wrap", inner |-> v]
 Leaves == {Leaf(t, ok) : t \in {"", "abc"}, ok \in BOOLEAN}
 MaybeW(S) == S \cup {W(v) : v \in S}
-Nodes1 == {[k |-> "node", attrs |-> a, kids |-> ks] : a \in {{}, {"id"}}, ks \in {<<>>} \cup {<<x>> : x \in MaybeW(Leaves)} \cup {<<x, y>> : x \in MaybeW(Leaves), y \in MaybeW({Leaf("abc", TRUE)})}}
-Values == MaybeW(Leaves) \cup MaybeW(Nodes1) \cup {[k |-> "node", attrs |-> {"id"}, kids |-> <<n>>] : n \in MaybeW({x \in Nodes1 : Len(x.kids) <= 1})}
+Nodes1 == {[k |-> "node", attrs |-> a, nsdecl |-> nd, kids |-> ks] : a \in {{}, {"id"}}, nd \in {{}, {"q"}}, ks \in {<<>>} \cup {<<x>> : x \in MaybeW(Leaves)} \cup {<<x, y>> : x \in MaybeW(Leaves), y \in MaybeW({Leaf("abc", TRUE)})}}
+Values == MaybeW(Leaves) \cup MaybeW(Nodes1) \cup {[k |-> "node", attrs |-> {"id"}, nsdecl |-> {}, kids |-> <<n>>] : n \in MaybeW({x \in Nodes1 : Len(x.kids) <= 1})}
 
 \* replay cases: probe type x value shape (the harness builds the bare and the wrapped value of that shape)
 Probes == {"leaf", "attrs", "nested", "tree", "restricted"}
